@@ -27,7 +27,7 @@ func init() {
 			"integer helpers enumerated exhaustively on vectors of length 1..4 with entries 0..5 (1..5 for dims)",
 		},
 		Workloads: []core.Workload{
-			{Name: "histories", Variant: "plain", N: core.Tiered(8*200, 8*5000), Run: c02History},
+			{Name: "histories", Variant: "plain", N: core.Tiered(8*200, 8*25000), Run: c02History},
 			{Name: "grid", Variant: "plain", N: func(string) int { return len(gridShapes) * 36 * len(gridOps) * 6 }, Run: c02Grid},
 			{Name: "inthelpers", Variant: "plain", N: core.Tiered(4, 4), Run: c02Ints},
 		},
